@@ -53,6 +53,10 @@ type muxReg struct {
 	recvd    [2]int
 	recvDone bool
 	sendDone int
+	// F15: the receiving endpoint unregisters this protocol while the stream flows
+	recvMux  *muxer.Muxer
+	recvRole muxer.ProtocolRole
+	unreg    bool
 }
 
 func muxSetup(s *rt.Sim, tier string) func() {
@@ -100,6 +104,7 @@ func muxSetup(s *rt.Sim, tier string) func() {
 			used[k2], used[k3] = true, true
 			r.sendCh, _, r.doneCh = ms.RegisterProtocol(r.proto, sendRole)
 			_, r.recvCh, _ = mr.RegisterProtocol(r.proto, recvRole)
+			r.recvMux, r.recvRole = mr, recvRole
 			r.nsub = 1
 			if !tinyRun && chance("cfg", 1, 2) {
 				r.nsub = 2
@@ -170,6 +175,20 @@ func muxSetup(s *rt.Sim, tier string) func() {
 					}
 					sleep(40 * time.Second)
 				}
+			}()
+		}
+		// F15 (own stream of draws): one receiver unregisters its protocol in mid-stream. What the
+		// muxer then does with that protocol's segments is its business (drop them, or end the
+		// connection with an "unknown protocol" error); the other streams of a connection that
+		// reports no error must still arrive completely.
+		if len(regs) > 1 && rt.Choose("cfg.x", 3) == 2 {
+			victim := regs[rt.Choose("cfg.x", len(regs))]
+			delay := oneOf("cfg.x", time.Millisecond, 20*time.Millisecond, 300*time.Millisecond, 2*time.Second, 45*time.Second)
+			go func() {
+				sleep(delay)
+				rt.Fault("F15.unregister-while-receiving")
+				victim.unreg = true
+				victim.recvMux.UnregisterProtocol(victim.proto, victim.recvRole)
 			}()
 		}
 		allDone := make(chan struct{}, 64)
@@ -267,6 +286,9 @@ func muxSetup(s *rt.Sim, tier string) func() {
 		// drain: until everything submitted was delivered, or the connection broke, or 1 h passed
 		allDelivered := func() bool {
 			for _, r := range regs {
+				if r.unreg {
+					continue
+				}
 				for sub := 0; sub < r.nsub; sub++ {
 					if r.recvd[sub] != r.sent[sub] {
 						return false
@@ -291,7 +313,7 @@ func muxSetup(s *rt.Sim, tier string) func() {
 				if r.recvd[sub] > r.started[sub] {
 					rt.Violate("C09/phantom-segment", "stream %d/%d", r.stream, sub)
 				}
-				if !broken && r.recvd[sub] != r.sent[sub] {
+				if !broken && !r.unreg && r.recvd[sub] != r.sent[sub] {
 					rt.Violate("C09/segment-lost", "stream %d/%d: %d submitted, %d delivered, no transport fault", r.stream, sub, r.sent[sub], r.recvd[sub])
 				}
 			}
